@@ -429,3 +429,111 @@ func Gap_Fallthrough2(x int) int {
 	}
 	return r
 }
+
+// ---- second batch: receivers, element copies, shadowing, division, comma-ok, copy
+func (p P) incVal()  { p.x++ }
+func (p *P) incPtr() { p.x++ }
+
+func Ok_ValueReceiver(p *P) int {
+	p.incVal()
+	return p.x
+}
+
+func Bad_PtrReceiver(p *P) int {
+	p.incPtr()
+	return p.x
+}
+
+func Ok_ElemCopy(s []P) int {
+	e := s[0]
+	e.x = 99
+	return s[0].x
+}
+
+func Bad_ElemWrite(s []P) int {
+	s[0].x = 99
+	return s[0].x
+}
+
+func Ok_RangeValueCopy(s []P) int {
+	for _, e := range s {
+		e.x = 5
+	}
+	if len(s) > 0 {
+		return s[0].x
+	}
+	return 0
+}
+
+func Ok_Shadow(a int) int {
+	x := a
+	if a > 0 {
+		x := 5
+		_ = x
+	}
+	return x
+}
+
+func Bad_Shadow(a int) int {
+	x := a
+	if a > 0 {
+		x = 5
+	}
+	return x
+}
+
+func Ok_DivTrunc(a int) (int, int) {
+	return a / 2, a % 2
+}
+
+func Bad_DivTrunc(a int) int {
+	return a / 2
+}
+
+func Ok_CommaOk(m map[string]int) int {
+	if v, ok := m["k"]; ok {
+		return v
+	}
+	return -1
+}
+
+func Bad_CommaOk(m map[string]int) int {
+	v := m["k"]
+	return v
+}
+
+func Ok_Copy(d, s []int) int {
+	n := copy(d, s)
+	return n
+}
+
+func Bad_Copy(d, s []int) int {
+	copy(d, s)
+	return d[0]
+}
+
+func Ok_StrConcat(a, b string) int {
+	c := a + b
+	return len(c)
+}
+
+func Bad_StrConcat(a, b string) byte {
+	c := a + b
+	return c[0]
+}
+
+type Inner struct{ v int }
+type Outer struct {
+	Inner
+	w int
+}
+
+func Ok_Embedded(o *Outer) int {
+	o.v = 3
+	return o.Inner.v
+}
+
+func Bad_Embedded(o *Outer) int {
+	o.v = 3
+	return o.w
+}
